@@ -152,6 +152,8 @@ impl SymbolList {
                     // findest smallest symbol size to hold data with base256
                     s.capacity().min >= input_len
                 })
+                // this is only a hint, fall back to the biggest symbol
+                .or_else(|| self.symbols.iter().next_back())
                 .map(SymbolSize::num_data_codewords)
         }
     }
